@@ -108,6 +108,31 @@ func traceSchedule(c *an.Ctx, s *sched, row schedRow) []schedPath {
 						arg = "stage"
 					}
 				}
+				// … or captured: a variable of this launch (a helper's parameter, a per-iteration local) that holds the stage
+				for _, src := range an.Sources(x.Call.Value) {
+					mc, ok := src.(*ssa.MakeClosure)
+					if !ok {
+						continue
+					}
+					for _, b := range mc.Bindings {
+						if !an.TypeIs(an.Deref(b.Type()), "pkg/scheduler", "Stage") {
+							continue
+						}
+						// the cell's content on this path
+						for _, held := range an.ResolveAll(b) {
+							if isStage(held, st) {
+								arg = "stage"
+							}
+						}
+						if al, ok := b.(*ssa.Alloc); ok && al.Referrers() != nil {
+							for _, r := range *al.Referrers() {
+								if sto, ok := r.(*ssa.Store); ok && sto.Addr == ssa.Value(al) && isStage(sto.Val, st) {
+									arg = "stage"
+								}
+							}
+						}
+					}
+				}
 				return "launch(" + arg + ")"
 			}
 			return "go"
